@@ -163,6 +163,52 @@ def hostile_pool(gen, n):
     return pool
 
 
+def revision_chain(gen):
+    """revisions of ONE 4.5 notebook: cell ids survive from revision to revision while sources, outputs and the
+    neighbourhood change - a base cell is replaced by two similar-source candidates (new ids) whose outputs are
+    re-run / swapped in the next revision.  Any verdict remembered per id or per text would be stale."""
+    import copy
+    r = gen.rng
+    n0 = gen.notebook(5, ncells=0)
+    for j in range(r.choice([3, 4, 5])):
+        c = gen.cell(5, "code")
+        c["source"] = "\n".join("step_%d_%d = compute(%d)  # revision chain" % (j, i, r.randrange(100)) for i in range(4)) + "\n"
+        c["outputs"] = [{"output_type": "stream", "name": "stdout", "text": "result of step %d: %d\nmore text %d\n" % (j, r.randrange(1000), j)}]
+        n0["cells"].append(c)
+    k = r.randrange(len(n0["cells"]))
+    victim = n0["cells"][k]
+
+    def candidate(tag, similar_out):
+        c = copy.deepcopy(victim)
+        c["id"] = gen.new_id()
+        c["source"] = victim["source"].replace("compute", "compute_" + tag, 1)
+        if similar_out:
+            c["outputs"] = copy.deepcopy(victim["outputs"])
+            c["outputs"][0]["text"] += "tail %s\n" % tag
+        else:
+            c["outputs"] = [{"output_type": "stream", "name": "stderr", "text": "completely different output %s %d\n" % (tag, r.randrange(1000))},
+                            {"output_type": "error", "ename": "ValueError", "evalue": tag, "traceback": ["tb " + tag]}]
+        return c
+    n1 = copy.deepcopy(n0)
+    ca, cb = candidate("a", True), candidate("b", False)
+    n1["cells"][k:k + 1] = [ca, cb]
+    n2 = copy.deepcopy(n1)
+    # re-run: the two candidates swap the kind of outputs they carry (same ids, same sources)
+    n2["cells"][k]["outputs"], n2["cells"][k + 1]["outputs"] = copy.deepcopy(cb["outputs"]), copy.deepcopy(ca["outputs"])
+    n3 = copy.deepcopy(n2)
+    n3["cells"][k]["outputs"] = []
+    revs = [n0, n1, n2, n3]
+    ops = []
+    order = [(0, 1), (0, 2), (0, 1), (0, 3), (1, 2), (0, 2), (2, 0), (0, 1)]
+    r.shuffle(order)
+    for a, b in order[: r.choice([3, 4, 6])]:
+        ops.append({"op": "diff_notebooks", "A": revs[a], "B": revs[b]})
+    if r.random() < 0.5:
+        ops.insert(r.randrange(len(ops)), {"op": "merge_notebooks", "base": n0, "local": n1, "remote": n2,
+                                           "config": {"merge": "inline", "input": None, "output": None, "ignore_transients": True}})
+    return ops
+
+
 def make_history(gen, maxlen):
     from ..gen_edit import mutate
     from ..gen_nb import validate_nb
@@ -173,7 +219,11 @@ def make_history(gen, maxlen):
         return []
     n = r.randrange(5, maxlen + 1)
     ops = []
+    chain = revision_chain(gen) if r.random() < 0.6 else []
     for _ in range(n):
+        if chain and r.random() < 0.3:
+            ops.append(chain.pop(0))
+            continue
         c = r.random()
         if c < 0.45:
             a = r.choice(pool)
